@@ -1062,6 +1062,10 @@ func (env *SpecEnv) callExpr(e *SExpr) SVal {
 			if len(as) == 1 {
 				return SVal{T: mk("(needswrite "+as[0].S+")", sortBool), GoT: types.Typ[types.Bool]}
 			}
+		case "dv":
+			vc.needStr, vc.needDigits, rs = true, true, sortReal
+		case "dpow10":
+			vc.needStr, vc.needDigits, rs = true, true, sortInt
 		case "beval":
 			vc.needBytes, rs = true, sortInt
 		case "beenc":
